@@ -441,6 +441,21 @@ def run_property(pid, tier, seed, jobs, only=None, write_evidence=True):
 
     for name in sorted(results):
         r = results[name]
+        # "must panic" harnesses: the code under check is REQUIRED to panic (documented, loud rejection);
+        # the listed panic messages are expected, anything else that fails (in particular the
+        # harness's own "MUST NOT RETURN" assertion) is a violation; at least one expected panic
+        # must have been reached, otherwise the harness is vacuous.
+        exp = [rx for suffix, rxs in P.get("expected_panics", {}).items() if name.endswith(suffix) for rx in rxs]
+        if exp and r["verdict"] == "fail":
+            hit = [c for c in r["failed_checks"] if any(re.search(rx, c["msg"]) for rx in exp)]
+            rest = [c for c in r["failed_checks"] if c not in hit]
+            if hit and not rest:
+                r["verdict"] = "pass" if (r["covers_total"] and r["covers_sat"] == r["covers_total"]) else "vacuous"
+                r["expected_panics_hit"] = [c["msg"] for c in hit]
+            else:
+                r["failed_checks"] = rest if rest else r["failed_checks"]
+        elif exp and r["verdict"] == "pass":
+            r["verdict"] = "vacuous"  # the required panic was never reached
         v = r["verdict"]
         m = meta.get(name, {})
         sample = {"harness": name, "verdict": v, "solver_time_s": r["time_s"], "unwind": m.get("unwind"),
